@@ -5,6 +5,8 @@ import TinyHttpModel.Req
 import TinyHttpModel.Lts.Seq
 import TinyHttpModel.WireSpec
 import TinyHttpModel.Lemmas.SeqInv
+import TinyHttpModel.Lemmas.PipelineStatuses
+import TinyHttpModel.Props.C18
 
 namespace TH.Props.C06
 open TH TH.Req
@@ -54,6 +56,79 @@ theorem finish_status_single (f : Finish) (h : ∀ ops, f ≠ .writer ops) : (Sp
   | writer ops => exact absurd rfl (h ops)
   | upgrade p r ops => rfl
   | respondFail r n => rfl
+
+/-! ### end to end: one final response per request of a whole pipeline -/
+
+open TH.Props.C09 (CMsg cmsgBytes) in
+/-- every request of the pipeline is delivered, whatever the handlers do (no hypothesis on the
+    script). -/
+theorem pipeline_all_delivered (msgs : List CMsg) (script : Script)
+    (hgood : ∀ m ∈ msgs, C18.expectBodied m) :
+    (Conn.run ((msgs.map cmsgBytes).flatten) .eof script).delivered.length = msgs.length := by
+  have h := congrArg List.length (C18.pipeline_statuses msgs script hgood).2.1
+  simpa using h
+
+open TH.Props.C09 (CMsg cmsgBytes) in
+/-- The final statuses on the wire are, in order, exactly those of the handlers' finishes: the
+    response passed to `respond` (also when its body reader fails), the automatic `500` for a
+    dropped request, the upgrade response, nothing for a raw writer (what it writes is in `out`);
+    the interim `100`s of `C18.pipeline_statuses` are the only other statuses.  (`hfin`: no
+    handler chooses `100` as the status of its final response.) -/
+theorem pipeline_final_statuses (msgs : List CMsg) (script : Script)
+    (hgood : ∀ m ∈ msgs, C18.expectBodied m)
+    (hfin : ∀ i, 100 ∉ Spec.finishStatus (script i).fin) :
+    (Conn.run ((msgs.map cmsgBytes).flatten) .eof script).statuses.filter (· != 100) =
+      finalStatuses script 0 msgs.length := by
+  rw [C18.non_interim_statuses msgs script hgood]
+  exact filter_ne_100_of_not_mem _ (finalStatuses_no_100 script hfin _ _)
+
+open TH.Props.C09 (CMsg cmsgBytes) in
+/-- Exactly one final response per delivered request, end to end: a pipeline of any number of
+    requests (with or without `Expect: 100-continue`, with bodies of any kind), answered by any
+    script whose handlers respond, fail while responding, upgrade or drop the request (`hnw`: none
+    takes the raw writer, whose output the model does not parse into statuses) — every request is
+    delivered and the server writes, besides interim `100`s, exactly as many status lines as there
+    are requests.  (`hfin` as in `pipeline_final_statuses`; see the counterexamples below.) -/
+theorem pipeline_one_final_response_each (msgs : List CMsg) (script : Script)
+    (hgood : ∀ m ∈ msgs, C18.expectBodied m)
+    (hnw : ∀ i ops, (script i).fin ≠ .writer ops)
+    (hfin : ∀ i, 100 ∉ Spec.finishStatus (script i).fin) :
+    let t := Conn.run ((msgs.map cmsgBytes).flatten) .eof script
+    (t.statuses.filter (· != 100)).length = msgs.length ∧ t.delivered.length = msgs.length := by
+  intro t
+  refine ⟨?_, pipeline_all_delivered msgs script hgood⟩
+  show ((Conn.run ((msgs.map cmsgBytes).flatten) .eof script).statuses.filter (· != 100)).length = msgs.length
+  rw [pipeline_final_statuses msgs script hgood hfin]
+  exact finalStatuses_length script hnw _ _
+
+/-- non-vacuity, on the pipeline of `C18` (POST expecting + Content-Length, GET, PUT expecting +
+    chunked): handlers that ask for the body and drop the request — five statuses on the wire, two
+    of them interim, three final `500`s for three delivered requests -/
+example :
+    let t := Conn.run C18.exWire .eof (fun _ => ⟨1, 2, 1, .drop, false⟩)
+    t.statuses = [100, 500, 500, 100, 500] ∧ (t.statuses.filter (· != 100)).length = 3 ∧
+      t.delivered.length = 3 := by
+  set_option maxRecDepth 20000 in decide
+
+/-- the theorem applied to it -/
+example (script : Script) (hnw : ∀ i ops, (script i).fin ≠ .writer ops)
+    (hfin : ∀ i, 100 ∉ Spec.finishStatus (script i).fin) :
+    ((Conn.run C18.exWire .eof script).statuses.filter (· != 100)).length = 3 ∧
+      (Conn.run C18.exWire .eof script).delivered.length = 3 := by
+  rw [← C18.ex_wire]
+  exact pipeline_one_final_response_each _ script C18.ex_expectBodied hnw hfin
+
+/-- why `hnw`: a raw writer's output is not a status the model records — one delivered request,
+    no status -/
+example :
+    let t := Conn.run (C09.cmsgBytes C18.exGet) .eof (fun _ => ⟨0, 0, 1, .writer [.write b!"HTTP/1.1 200 OK\r\n\r\n"], false⟩)
+    t.statuses = [] ∧ t.delivered.length = 1 := by decide
+
+/-- why `hfin`: a handler may answer with status `100`, which a count of the statuses other than
+    `100` misses — one delivered request, one final response, whose status is `100` -/
+example :
+    let t := Conn.run (C09.cmsgBytes C18.exGet) .eof (fun _ => ⟨0, 0, 1, .respond ⟨100, [], none, none, []⟩, false⟩)
+    t.statuses = [100] ∧ (t.statuses.filter (· != 100)).length = 0 ∧ t.delivered.length = 1 := by decide
 
 /-- a dropped request never holds up the responses that follow it: once its writer is dropped,
     the next writer has its turn (Seq LTS). -/
